@@ -13,21 +13,21 @@ from ..runner import Divergence, Driver, Env, Outcome, Violation, diff_streams
 from ..sloop import SLoop
 
 THEOREMS = [
-    "KeyedLock.C25_source_shape",
-    "KeyedLock.C25_mutex",
-    "KeyedLock.C25_independent_keys_frame",
-    "KeyedLock.C25_independent_keys_local",
-    "KeyedLock.C25_independent_keys_nonblocking",
-    "KeyedLock.C25_independent_keys_commute",
-    "KeyedLock.C25_refcount",
-    "KeyedLock.C25_cleanup_key",
-    "KeyedLock.C25_cleanup",
-    "KeyedLock.C25_no_internal_error",
-    "KeyedLock.C25_main_lock_uncontended",
-    "KeyedLock.C25_no_lost_wakeup",
-    "KeyedLock.C25_fifo_no_barging",
-    "KeyedLock.C25_fifo_progress",
-    "KeyedLock.C25_eventually_enters",
+    "C25_source_shape",
+    "C25_mutex",
+    "C25_independent_keys_frame",
+    "C25_independent_keys_local",
+    "C25_independent_keys_nonblocking",
+    "C25_independent_keys_commute",
+    "C25_refcount",
+    "C25_cleanup_key",
+    "C25_cleanup",
+    "C25_no_internal_error",
+    "C25_main_lock_uncontended",
+    "C25_no_lost_wakeup",
+    "C25_fifo_no_barging",
+    "C25_fifo_progress",
+    "C25_eventually_enters",
 ]
 EXPLANATION = (
     "Lean LTS of KeyedLock over asyncio.Lock (WfModel/KeyedLock.lean): per key, `_locks[k]` (locked bit + FIFO of "
